@@ -324,8 +324,9 @@ pub fn def_c03() -> PropDef {
             };
             run_prop(ctx, "C03", ParGen::default(), rc, sb, bound, mr);
             stress(ctx, "C03");
+            nodup_reconvergent(ctx);
         },
-        replay: |p, c, k| if p.starts_with("stress") { stress_replay(c, "C03") } else { replay(p, c, k, "C03") },
+        replay: |p, c, k| if p == "stress-nodup-knapsack" { match serde_json::from_value::<crate::families::FamCase>(c.clone()) { Ok(fc) => crate::props::fam::eval_family(&fc, &mut CaseObs::default(), "C03"), Err(e) => Verdict::HarnessError(format!("cannot decode replay case: {e}")) } } else if p.starts_with("stress") { stress_replay(c, "C03") } else { replay(p, c, k, "C03") },
         meta: || EvidenceMeta {
             rule: "cases = (generated instance, configuration, 1..4 workers, schedule) executed by ParallelSolver under a cooperative scheduler that owns the order of the workers' critical sections (hooks) and, when 'fine', of cutoff polls / cache accesses / dominance checks; schedules are random bytes (shrinkable towards the non pre-emptive schedule), PCT-style priorities, or systematically enumerated (all schedules with <= d deviations from the default schedule for a pool of small bases); plus un-scheduled real-thread stress with 2..16 workers. Oracle: exact h* optimum, is_exact, no panic, returns. Non-trivial = at least two workers each processed a sub-problem and a worker was switched out while it held one; distinct = hash of the serialised case incl. schedule.".into(),
             assumptions: vec![
@@ -450,6 +451,26 @@ pub fn stress(ctx: &mut Ctx, prop: &'static str) {
     let with_cut = prop == "C05";
     let strat = (table_strategy(p), config_strategy(ConfigGen { max_width: 2, ..Default::default() }), 2usize..=16, 1usize..120).prop_map(move |(t, cfg, threads, k)| StressCase { t, cfg, threads, fire_at: if with_cut { Some(k) } else { None } });
     ctx.pt_run("stress-real-threads", cases, strat, |c| serde_json::to_value(c).unwrap(), |c, obs| eval_stress(c, obs, prop));
+}
+/// C03, "every fringe type": larger re-convergent instances with the duplicate-free fringe forced, solved by
+/// the parallel solver with 1 or 2 real threads. The parallel solver (unlike the sequential one) stops as
+/// soon as the popped node cannot beat the incumbent, which is only sound while the fringe pops its
+/// greatest upper bound first; in-place updates of queued entries are where that can break (seeded
+/// change C03-S3). The scheduled parts use instances that are too small for such heap layouts.
+pub fn nodup_reconvergent(ctx: &mut Ctx) {
+    if !ctx.stats.violations.is_empty() {
+        return;
+    }
+    let cases = ctx.tier.pick(5_000, 100_000);
+    let p = GenParams { n: (6, 8), b: (3, 4), nd: (2, 3), embed: None, allow_irrelevance: false, allow_potential: true };
+    let strat = (table_strategy(p), config_strategy(ConfigGen { max_width: 3, fringe: Some(vec![1]), ..Default::default() }), 1usize..=2).prop_map(|(t, cfg, threads)| StressCase { t, cfg, threads, fire_at: None });
+    ctx.pt_run("stress-nodup-reconvergent", cases, strat, |c| serde_json::to_value(c).unwrap(), |c, obs| eval_stress(c, obs, "C03"));
+    // the same on knapsacks with 10..=16 items: searches that keep dozens of nodes open at a time
+    use crate::families::*;
+    let cases = ctx.tier.pick(3_000, 30_000);
+    let strat = (knap_large_strategy(), config_strategy(ConfigGen { max_width: 3, fringe: Some(vec![1]), rub_none_only: true, dom: Some(false), ..Default::default() }), 1usize..=2)
+        .prop_map(|(k, cfg, threads)| FamCase { fam: Family::Knap(k), dd: cfg.dd, cache: cfg.cache, fringe: cfg.fringe, width: cfg.width, threads: Some(threads) });
+    ctx.pt_run("stress-nodup-knapsack", cases, strat, |c| serde_json::to_value(c).unwrap(), |c, obs| crate::props::fam::eval_family(c, obs, "C03"));
 }
 pub fn stress_replay(case: &Value, prop: &str) -> Verdict {
     match serde_json::from_value::<StressCase>(case.clone()) {
